@@ -18,9 +18,18 @@ const (
 	AnsShort        // one octet, nil error (legal for an io.Reader)
 	AnsErr          // error
 	nAnswers
+	// AnsConst+c: full read, every octet = c (c in 0..255)
+	AnsConst = 1000
 )
 
 var AnswerNames = []string{"A", "zero", "ff", "short", "error"}
+
+func AnswerName(a int) string {
+	if a >= AnsConst {
+		return "const" + string("0123456789abcdef"[(a-AnsConst)>>4&15]) + string("0123456789abcdef"[(a-AnsConst)&15])
+	}
+	return AnswerNames[a]
+}
 
 var ErrInjected = errors.New("injected random source failure")
 
@@ -40,6 +49,7 @@ type Seam struct {
 	Log     []ReadRec
 	Stream  uint64 // stream id: different ids give unrelated pattern-A streams
 	StreamOf func() uint64
+	Default  int // the answer served when no explorer is attached (AnsA unless set)
 	Before   func() // called at the start of every Read (scheduling point of the cooperative scheduler)
 	pos     map[uint64]uint64
 }
@@ -74,7 +84,7 @@ func (s *Seam) Read(p []byte) (int, error) {
 		s.Before()
 	}
 	call := len(s.Log)
-	ans := AnsA
+	ans := s.Default
 	if call >= s.Horizon {
 		s.Cut = true
 	} else if s.Run != nil && len(s.Menu) > 1 {
@@ -110,6 +120,13 @@ func (s *Seam) Read(p []byte) (int, error) {
 		}
 	case AnsErr:
 		err = ErrInjected
+	default:
+		if ans >= AnsConst {
+			for i := range p {
+				p[i] = byte(ans - AnsConst)
+			}
+			n = len(p)
+		}
 	}
 	rec.Served = n
 	rec.Data = append([]byte(nil), p[:n]...)
@@ -138,7 +155,7 @@ func (s *Seam) Served() []byte {
 func (s *Seam) Answers() []string {
 	var a []string
 	for _, r := range s.Log {
-		a = append(a, AnswerNames[r.Answer])
+		a = append(a, AnswerName(r.Answer))
 	}
 	return a
 }
